@@ -1,6 +1,7 @@
 mod c04;
 mod c03;
 mod c08;
+mod c13;
 mod c19;
 mod canon;
 mod wrap;
@@ -26,6 +27,7 @@ fn main() {
                 "C05" => vec![o_text::c05(&c, &tier)],
                 "C08" => c08::oracle(&c, seed, &tier),
                 "C11" => vec![o_text::c11(&c, &tier)],
+                "C13" => c13::oracle(&c, seed, &tier),
                 "C19" => c19::oracle(&c, seed, &tier),
                 _ => { eprintln!("no oracle for {p}"); std::process::exit(2) }
             };
@@ -36,6 +38,7 @@ fn main() {
             std::fs::create_dir_all(dir).unwrap();
             let rep = match name {
                 "kw" => c08::corr(dir, seed, &tier),
+                "lists" => c13::corr(dir, seed, &tier),
                 "prec" => c04::corr_prec(dir, seed, &tier),
                 "chains" => c04::corr_chains(dir, seed, &tier),
                 "tok" => tokstream::corr(dir, seed, &tier),
